@@ -80,29 +80,44 @@ Definition ordered (cmp : pyval -> pyval -> outcome bool) (strcmp : string -> st
     if is_num_inst tn then cmp th tn else Ok false
   else Ok (strcmp (py_str th) needle).
 
-Definition search_matches_h (m : smethod) (needle : string) (haystack : hay) : outcome bool :=
+(* Searches.search_matches(method, needle, haystack).  The path parser always
+   hands over a str needle; KeywordSearches.max/min hand over the running
+   match_value, which is any scalar: str(needle) is then its text, and the
+   str-only operations (startswith / endswith / in / re.compile) raise TypeError
+   on a non-str. *)
+Definition needle_text (needle : pyval) : outcome string :=
+  match needle with
+  | PStr s => Ok s
+  | _ => Raise (PyCrash TypeError)
+  end.
+
+Definition search_matches_g (m : smethod) (needle : pyval) (haystack : hay) : outcome bool :=
   do th <- typed_haystack haystack;
-  do tn <- typed_value (PStr needle);
+  do tn <- typed_value needle;
   match m with
   | MEquals =>
       if is_bool_inst th && type_is_bool tn then Ok (py_eq th tn)
       else if is_int_inst th && type_is_int tn then Ok (py_eq th tn)
       else if is_float_inst th && type_is_float tn then Ok (py_eq th tn)
-      else Ok (String.eqb (py_str th) needle)
-  | MStartsWith => Ok (starts_with needle (py_str th))
-  | MEndsWith => Ok (ends_with needle (py_str th))
-  | MContains => Ok (str_contains needle (py_str th))
-  | MGt => ordered py_gt (fun a b => str_ltb b a) th tn needle
-  | MLt => ordered py_lt str_ltb th tn needle
-  | MGe => ordered py_ge (fun a b => str_leb b a) th tn needle
-  | MLe => ordered py_le str_leb th tn needle
+      else Ok (String.eqb (py_str th) (py_str needle))
+  | MStartsWith => do n <- needle_text needle; Ok (starts_with n (py_str th))
+  | MEndsWith => do n <- needle_text needle; Ok (ends_with n (py_str th))
+  | MContains => do n <- needle_text needle; Ok (str_contains n (py_str th))
+  | MGt => ordered py_gt (fun a b => str_ltb b a) th tn (py_str needle)
+  | MLt => ordered py_lt str_ltb th tn (py_str needle)
+  | MGe => ordered py_ge (fun a b => str_leb b a) th tn (py_str needle)
+  | MLe => ordered py_le str_leb th tn (py_str needle)
   | MRegex =>
-      do r <- re_search needle (py_str th);
+      do n <- needle_text needle;
+      do r <- re_search n (py_str th);
       match r with
       | RMatch b => Ok b
       | RError => Raise (PyCrash ReError)
       end
   end.
+
+Definition search_matches_h (m : smethod) (needle : string) (haystack : hay) : outcome bool :=
+  search_matches_g m (PStr needle) haystack.
 
 Definition search_matches (m : smethod) (needle : string) (haystack : pyval) : outcome bool :=
   search_matches_h m needle (HVal haystack).
